@@ -122,14 +122,16 @@ func hSamePathElements(a, b string) bool {
 var h18cTemplates = []string{
 	// escaped bytes in a path segment, spelled out (a symbolic escape is ~50x slower per query)
 	"a:%2F", "a:b%2Fc", "a:%2E%2E", "a:b:%2e", "a:%41", "a:%20", "a:%3F", "a:%23", "a:%25", "a:%C3%A9", "a:%2B", // 1-11
-	"a%3A" + hDig + ":" + hAny,                                 // 12
+	"a%3A" + hDig + ":" + hSyn,                                 // 12
 	hDig + "." + hDig + "." + hDig + "." + hDig + "%3A" + hDig, // 13 IPv4 with port
 	"%5B%3A%3A" + hDig + "%5D%3A" + hDig,                       // 14 IPv6 with port
-	hAny + "%40" + hAny,                                        // 15 user-info
-	"a:" + hAny + hAny,                                         // 16
+	hSyn + "%40" + hSyn,                                        // 15 user-info
+	"a:" + hSyn + hSyn,                                         // 16
 }
 
-// H18c1: which request does Resolve send? For every id (bytes up to n, and templates): no request at all when
+// H18c1: which request does Resolve send? For every id over the bytes of the DID syntax (idchar, ':', '%' - what a
+// parsed DID can contain; other bytes make net/url compute escapes symbolically, ~50x slower) up to n bytes, and
+// the templates: no request at all when
 // the id has no URL; otherwise exactly one GET without body to https://<host of the id><path of the id>/did.json
 // (/.well-known/did.json without path) - host and path as DIDToURL gives them (H18a checks those against
 // the id), compared as path element sequences.
@@ -144,6 +146,9 @@ func H18c1() {
 	if k == 0 {
 		vTag("id")
 		idstr = vString(vLen(0, n))
+		for i := 0; i < len(idstr); i++ {
+			vAssume(hIsSyntaxByte(idstr[i]))
+		}
 	} else {
 		idstr = hFromTemplate(h18cTemplates[k-1])
 	}
